@@ -8,9 +8,9 @@ import (
 	"github.com/lightninglabs/pool/order"
 )
 
-// VerifBidTlvRoundTrip writes the additional (tlv) data of a bid the way it is
+// VerifC15BidTlvRoundTrip writes the additional (tlv) data of a bid the way it is
 // stored with the order and reads it back into a fresh bid.
-func VerifBidTlvRoundTrip(bid *order.Bid) (*order.Bid, []byte, error) {
+func VerifC15BidTlvRoundTrip(bid *order.Bid) (*order.Bid, []byte, error) {
 	var buf bytes.Buffer
 	if err := serializeOrderTlvData(&buf, bid); err != nil {
 		return nil, nil, err
